@@ -329,6 +329,86 @@ theorem ownFresh_timely {u B : Int} {s : State} (hu : 0 < u) (hB0 : 0 ≤ B) (h 
   | init => exact ownFresh_init u B
   | step l _ ha hs ih => exact ownFresh_step hu hB0 ih ha hs
 
+/-- labels whose admissibility does not depend on the state -/
+def staticAllowed (u B : Int) : Label → Bool
+  | .start _ _ L => decide (1 ≤ L ∧ 2 * B < marginT u L)
+  | .keepalive _ lag => decide ((lag : Int) ≤ B)
+  | .wake _ lag => decide ((lag : Int) ≤ B)
+  | .exit _ | .exitLost _ | .kill _ | .deliver _ => true
+  | _ => false
+
+theorem timely_run_static {u B : Int} : ∀ (ls : List Label) (s s' : State), Timely u B s →
+    ls.all (staticAllowed u B) = true → run u s ls = some s' → Timely u B s' := by
+  intro ls
+  induction ls with
+  | nil => intro s s' ht _ h; simp only [run, Option.some.injEq] at h; subst h; exact ht
+  | cons l rest ih =>
+    intro s s' ht hall h
+    simp only [List.all_cons, Bool.and_eq_true] at hall
+    simp only [run] at h
+    cases hs : step u s l with
+    | none => simp [hs] at h
+    | some s1 =>
+      simp only [hs] at h
+      refine ih s1 s' (Timely.step l ht ?_ hs) hall.2 h
+      cases l <;> simp_all [staticAllowed, Allowed]
+
+/-- a state with exactly two operators: case analysis on `ops` -/
+theorem ops_of_two {s : State} {a b : Identity} {oa ob : Op} (ha : s.ops a = some oa) (hb : s.ops b = some ob)
+    (hn : ∀ i, i ≠ a → i ≠ b → s.ops i = none) :
+    ∀ i o, s.ops i = some o → (i = a ∧ o = oa) ∨ (i = b ∧ o = ob) := by
+  intro i o h
+  by_cases h1 : i = a
+  · subst h1; rw [ha] at h; injection h with e; exact Or.inl ⟨rfl, e.symm⟩
+  · by_cases h2 : i = b
+    · subst h2; rw [hb] at h; injection h with e; exact Or.inr ⟨rfl, e.symm⟩
+    · rw [hn i h1 h2] at h; cases h
+
+/-- an identity that was never started has no operator entry -/
+theorem ops_none_of_not_started {u : Int} {i : Identity} : ∀ (ls : List Label) (s s' : State), s.ops i = none →
+    (∀ l ∈ ls, ∀ p L, l ≠ .start i p L) → run u s ls = some s' → s'.ops i = none := by
+  intro ls
+  induction ls with
+  | nil => intro s s' hn _ h; simp only [run, Option.some.injEq] at h; subst h; exact hn
+  | cons l rest ih =>
+    intro s s' hn hall h
+    simp only [run] at h
+    cases hs : step u s l with
+    | none => simp [hs] at h
+    | some s1 =>
+      simp only [hs] at h
+      refine ih s1 s' ?_ (fun l hl => hall l (List.mem_cons_of_mem _ hl)) h
+      have upd : ∀ {j : Identity} {oj onew : Op}, s.ops j = some oj → s1.ops = updOp s.ops j onew → s1.ops i = none := by
+        intro j oj onew hj hops
+        have hij : i ≠ j := by intro e; subst e; rw [hn] at hj; cases hj
+        rw [hops, updOp_other _ _ hij]; exact hn
+      cases l with
+      | start j p L =>
+        obtain ⟨_, _, _, _, hops⟩ := start_spec hs
+        have hij : i ≠ j := fun e => hall _ List.mem_cons_self p L (by rw [e])
+        rw [hops, updOp_other _ _ hij]; exact hn
+      | keepalive j lag => obtain ⟨oj, hj, _, _, _, hops⟩ := keepalive_spec hs; exact upd hj hops
+      | exit j => obtain ⟨oj, hj, _, _, _, hops⟩ := exit_spec hs; exact upd hj hops
+      | exitLost j => obtain ⟨oj, hj, _, _, _, hops⟩ := exitLost_spec hs; exact upd hj hops
+      | kill j => obtain ⟨oj, hj, _, _, _, hops⟩ := kill_spec hs; exact upd hj hops
+      | deliver j => obtain ⟨oj, hj, _, _, _, _, _, hops⟩ := deliver_spec hs; exact upd hj hops
+      | deliverStale j v => obtain ⟨oj, hj, _, _, _, hops⟩ := stale_spec hs; exact upd hj hops
+      | wake j lag => obtain ⟨oj, hj, _, _, _, hops⟩ := wake_spec hs; exact upd hj hops
+      | tick d => simp only [step, Option.some.injEq] at hs; subst hs; exact hn
+      | expire j => simp only [step, Option.some.injEq] at hs; subst hs; exact hn
+      | foreign j r => simp only [step, Option.some.injEq] at hs; subst hs; exact hn
+
+theorem reachable_run {u : Int} : ∀ (ls : List Label) (s s' : State), Reachable u s → run u s ls = some s' → Reachable u s' := by
+  intro ls
+  induction ls with
+  | nil => intro s s' ht h; simp only [run, Option.some.injEq] at h; subst h; exact ht
+  | cons l rest ih =>
+    intro s s' ht h
+    simp only [run] at h
+    cases hs : step u s l with
+    | none => simp [hs] at h
+    | some s1 => simp only [hs] at h; exact ih s1 s' (Reachable.step l ht hs) h
+
 theorem timely_reachable {u B : Int} {s : State} (h : Timely u B s) : Reachable u s := by
   induction h with
   | init => exact Reachable.init
